@@ -4,7 +4,7 @@ import z3
 from contracts.common import COLS, col, nof, sym_tree, sym_tree_fixed
 from pyvc import ext_C09 as X
 from pyvc.spec import Registry
-from pyvc.values import NArr, Obj, PDict, PList, SArr, Sym, fresh_name, to_z3, zint
+from pyvc.values import NArr, Obj, PDict, PList, SArr, Sym, fresh_name, kind_of, to_z3, zint
 
 NODE = "swcgeom/core/node.py"
 TREE = "swcgeom/core/tree.py"
@@ -16,11 +16,62 @@ KEYS = list(COLS)
 OPTS = dict(models=X.MODELS)
 
 
-def node_obj(S, t, idx=None):
+def built(S, cls, args, declared):
+    """An arbitrary instance of a view class = what the REAL constructor builds from arbitrary arguments (`S.new`: `cls.__init__` is
+    interpreted from the repository, so a field a change adds to the constructor is there, with the value the constructor computes, and
+    the accessor that reads it is verified against its own contract instead of stopping at a missing attribute).  The fields the
+    contracts speak about (`declared`) are the constructor's own postcondition (Path.__init__ / Compartment.__init__ are carriers);
+    when the constructor leaves the modelled subset the declared representation is used and the constructor's own carrier
+    reports the machinery error."""
+    from pyvc.engine import Unsupported
+
+    try:
+        o = S.new(cls, *args)
+    except Unsupported:
+        o = S.obj(cls, **declared)
+    # a view is a value: no accessor may write to the view object or to anything its constructor allocated for it (obligations
+    # safety/frame-attr-write, safety/frame-write) -- so every later access finds it as the constructor left it, which is what closes the
+    # argument over histories.  What the view merely refers to (the owner, handed in as an argument) keeps the setup's own frame.
+    given = set()
+
+    def reach(v):
+        if id(v) in given or isinstance(v, (int, float, str, Sym, type(None))):
+            return
+        given.add(id(v))
+        if isinstance(v, Obj):
+            for x in v.fields.values():
+                reach(x)
+        elif isinstance(v, (PList, PDict)) and v.items is not None:
+            for x in (v.items.values() if isinstance(v, PDict) else v.items):
+                reach(x)
+        elif isinstance(v, (tuple, list)):
+            for x in v:
+                reach(x)
+
+    for a in args:
+        reach(a)
+
+    def freeze(v):
+        if id(v) in given or not isinstance(v, (Obj, PList, PDict, SArr, NArr)):
+            return
+        given.add(id(v))
+        v.frozen = True
+        if isinstance(v, Obj):
+            for x in v.fields.values():
+                freeze(x)
+        elif isinstance(v, (PList, PDict)) and v.items is not None:
+            for x in (v.items.values() if isinstance(v, PDict) else v.items):
+                freeze(x)
+
+    freeze(o)
+    return o
+
+
+def node_obj(S, t, idx=None, cls=None):
     from swcgeom.core.tree import Tree
 
     i = S.int("idx") if idx is None else idx
-    return S.obj(Tree.Node, attach=t, idx=i, names=t.fields["names"])
+    return built(S, cls or Tree.Node, (t, i), dict(attach=t, idx=i, names=t.fields["names"]))
 
 
 def in_range(E, v, o):
@@ -153,7 +204,12 @@ def register(R: Registry):
             idx = NArr((L,), [S.int(f"pidx{k}") for k in range(L)], "int")
             for x in idx.items:
                 S.assume(z3.And(x.z >= 0, x.z < nof(t)))
-        return S.obj(cls or Path, attach=t, idx=idx, names=t.fields["names"], source="")
+        from swcgeom.core.compartment import Compartment
+
+        idx.frozen = True
+        klass = cls or Path
+        args = (t, idx.items[0], idx.items[1]) if issubclass(klass, Compartment) else (t, idx)  # Compartment(attach, pid, idx)
+        return built(S, klass, args, dict(attach=t, idx=idx, names=t.fields["names"], source=""))
 
     def gathers(E, v, o):
         p = v["self"]
@@ -215,10 +271,35 @@ def register(R: Registry):
         uids = [a.uid for a in y.fields["ndata"].items.values()]
         return z3.And(*out) if len(set(uids)) == len(uids) else False
 
+    def copy_shares_nothing(E, v, o):
+        """'fully independent': whatever column the original has -- the seven SWC columns and every additional one -- the copy's column of
+        that name is an allocation of this call, no view, and no two columns of the copy are one allocation"""
+        y, x = v["result"], v["self"]
+        if not isinstance(y, Obj) or not isinstance(y.fields.get("ndata"), PDict) or y.fields["ndata"].items is None:
+            return False
+        mine = y.fields["ndata"].items
+        theirs = {a.uid for a in x.fields["ndata"].items.values()}
+        for k in x.fields["ndata"].items:
+            a = mine.get(k)
+            if not isinstance(a, (SArr, NArr)) or a.uid in theirs or a.uid in E.entry_uids or getattr(a, "view_of", None) is not None:
+                return False
+        return len({a.uid for a in mine.values()}) == len(mine)
+
+    def copy_own_containers(E, v, o):
+        y, x = v["result"], v["self"]
+        if not isinstance(y, Obj):
+            return False
+        nd, cm = y.fields.get("ndata"), y.fields.get("comments")
+        if not isinstance(nd, PDict) or nd is x.fields["ndata"] or nd.uid in E.entry_uids:
+            return False
+        return isinstance(cm, PList) and cm is not x.fields["comments"] and cm.uid not in E.entry_uids and cm.items == o["self"].fields["comments"].items
+
     R.add(f"{SWC}:DictSWC.copy", prop="C09", pure_inline=True,
           variants={"a-Tree-(Tree.copy)": lambda S: dict(self=sym_tree(S, "t", extra_cols=("level",))),
                     "a-plain-DictSWC": lambda S: dict(self=sym_tree(S, "t", cls=__import__("swcgeom.core.swc", fromlist=["DictSWC"]).DictSWC))},
-          ensures=[("equal-content-in-fresh-storage", copy_post),
+          ensures=[("no-column-of-the-copy-shares-storage-with-the-original-(extra-columns-included)", copy_shares_nothing),
+                   ("the-copy-has-its-own-column-table-and-comment-list", copy_own_containers),
+                   ("equal-content-in-fresh-storage", copy_post),
                    ("original-untouched", lambda E, v, o: unchanged(E, v["self"], o["self"]))])
 
     register_path(R, path_obj)
@@ -481,6 +562,11 @@ def unchanged(E, now, old):
     return z3.And(*out)
 
 
+def owner_of_any(x):
+    """the DictSWC that finally owns the data behind a tree / a path-like view"""
+    return x if "ndata" in x.fields else owner_of_any(x.fields["attach"])
+
+
 def detach_clauses(cls, window_len, window_pos, owner_of=lambda p: p.fields["attach"]):
     """postconditions shared by Path.detach / Branch.detach: `window_len(p)` positions, the j-th being row `window_pos(p, j)` of the owner"""
     from swcgeom.core.swc import DictSWC
@@ -590,7 +676,7 @@ def register_handles(R, path_obj):
     # a node of a path: position i of the window, i.e. row idx[i] of the owner
     def pnode(S):
         p = path_obj(S, sym_tree(S, "t", frozen=True))
-        return S.obj(Path.Node, attach=p, idx=S.int("i"), names=p.fields["names"])
+        return node_obj(S, p, S.int("i"), cls=Path.Node)
 
     def pnode_pre(E, v, o):
         h = v["self"]
@@ -611,6 +697,36 @@ def register_handles(R, path_obj):
           requires=[("position-within-the-window-window-within-the-owner", pnode_pre)],
           ensures=[("path-node-reads-the-owner's-row-its-window-position-names-at-call-time", pnode_reads)], options=dict(LOOSE))
 
+    # ------------------------------------------------------------------ Node.__init__ (every handle is built by it; the setups above run it)
+    def handle_init_post(E, v, o):
+        h, a = v["self"], v["attach"]
+        same_pos = h.fields.get("idx") is o["idx"] or (kind_of(h.fields.get("idx")) is not None and z3.is_true(z3.simplify(to_z3(h.fields["idx"], "int") == to_z3(o["idx"], "int"))))
+        return h.fields.get("attach") is a and same_pos and h.fields.get("names") is a.fields["names"]
+
+    R.add(f"{NODE}:Node.__init__", prop="C09",
+          variants={"on-a-tree": lambda S: dict(self=S.obj(Tree.Node), attach=sym_tree(S, "t"), idx=S.int("i")),
+                    "on-a-path": lambda S: dict(self=S.obj(Path.Node), attach=path_obj(S, sym_tree(S, "t")), idx=S.int("i"))},
+          ensures=[("handle-holds-the-owner-itself-the-given-position-and-the-owner's-names-(no-attribute-copied)", handle_init_post),
+                   ("owner-untouched", lambda E, v, o: unchanged(E, owner_of_any(v["attach"]), owner_of_any(o["attach"])))])
+
+    # ------------------------------------------------------------------ Tree.Node.is_root / is_soma (reads through the handle, wrapped position)
+    def root_row(n):
+        t = n.fields["attach"]
+        return z3.Select(col(t, "pid").arr, wrapped(to_z3(n.fields["idx"], "int"), nof(t))) == -1
+
+    def soma_row(n):
+        t = n.fields["attach"]
+        return z3.And(z3.Select(col(t, "type").arr, wrapped(to_z3(n.fields["idx"], "int"), nof(t))) == t.fields["types"].soma, root_row(n))
+
+    for fn, want in (("is_root", root_row), ("is_soma", soma_row)):
+        R.add(f"{TREE}:Tree.Node.{fn}", prop="C09",
+              setup=lambda S: dict(self=node_obj(S, sym_tree(S, "t", frozen=True))),
+              requires=[("handle-position-in-[-n,n)", any_position)],
+              ensures=[({"is_root": "true-exactly-when-the-row-behind-the-handle-has-parent--1-at-call-time",
+                         "is_soma": "true-exactly-when-the-row-behind-the-handle-is-a-root-of-soma-type-at-call-time"}[fn],
+                        (lambda w: lambda E, v, o: to_z3(v["result"], "bool") == w(v["self"]))(want))],
+              options=dict(LOOSE))
+
     # ------------------------------------------------------------------ Node.detach / xyz / xyzr / keys
     from swcgeom.core.node import Node
     from swcgeom.core.swc import DictSWC
@@ -620,7 +736,7 @@ def register_handles(R, path_obj):
 
     def pnode_x(S):
         p = path_obj(S, sym_tree(S, "t", frozen=True, extra_cols=("level",)))
-        return S.obj(Path.Node, attach=p, idx=S.int("i"), names=p.fields["names"])
+        return node_obj(S, p, S.int("i"), cls=Path.Node)
 
     def node_pre(E, v, o):
         return pnode_pre(E, v, o) if v["self"].cls is Path.Node else in_range(E, v, o)
@@ -819,6 +935,26 @@ def register_branch(R, path_obj):
         h = X.HandleList(Tree.Compartment, dict(attach=t, names=t.fields["names"], source="", types=get_types()), {},
                          {"idx": ((2,), "int", None, [P.arr, C.arr])}, m.z)
         return S.obj(Compartments, __items__=h, names=t.fields["names"]), t, P, C
+
+    # ------------------------------------------------------------------ Compartments.__init__
+    def comps_init_setup(S):
+        cs, t, P, C = sym_comps(S)
+        h = cs.fields["__items__"]
+        return dict(self=S.obj(Compartments), segments=h, __ghost__=dict(tree=t, P=P, C=C))
+
+    def comps_init_post(E, v, o):
+        from swcgeom.core.swc_utils import get_names
+
+        t, P, C = (E.spec_extra[x] for x in ("tree", "P", "C"))
+        h = X._handles_of(v["self"])
+        if h is None or h.cls_ is not Tree.Compartment or h.fixed.get("attach") is not t or "idx" not in h.vecs:
+            return False
+        k, m = qj("k"), P.nz()
+        names_ok = v["self"].fields.get("names") == get_names()  # the owner's names when there is a first compartment (they are the default here), the default otherwise
+        return z3.And(names_ok, zint(h.n) == m, z3.ForAll([k], z3.Implies(z3.And(k >= 0, k < m), z3.And(z3.Select(h.vec("idx", 0), k) == P.get(k).z, z3.Select(h.vec("idx", 1), k) == C.get(k).z))))
+
+    R.add(f"{COMP}:Compartments.__init__", prop="C09", setup=comps_init_setup,
+          ensures=[("holds-exactly-the-given-compartments-in-order-names-of-the-first-or-the-default", comps_init_post)], options=dict(OPTS))
 
     def comps_setup(S, **kw):
         cs, t, P, C = sym_comps(S)
